@@ -355,6 +355,9 @@ func GenFor(t *rapid.T, v val.V, cfg GenCfg) Sel {
 	return s
 }
 
+// NeedsQuote reports whether a field name can only be written in the quoted form ["name"].
+func NeedsQuote(name string) bool { return needsQuote(name) }
+
 func needsQuote(name string) bool {
 	if name == "" {
 		return true
